@@ -63,7 +63,7 @@ func evJanitor(base string, backend string, firstMs, lastMs int) string {
 	}()
 	select {
 	case <-entered:
-	case <-time.After(3 * time.Second):
+	case <-runningFor(3 * time.Second):
 		close(release)
 		return "setup-incomplete(no-cycle)"
 	}
@@ -149,7 +149,7 @@ func evShutdown(base string, backend string, order string) string {
 		}
 		select {
 		case <-entered:
-		case <-time.After(3 * time.Second):
+		case <-runningFor(3 * time.Second):
 			close(release)
 			c2.Destroy()
 			return "mailbox=0;parked=0" // no cycle came: nothing to observe
@@ -171,7 +171,7 @@ func evShutdown(base string, backend string, order string) string {
 		select {
 		case <-done:
 			return "mailbox=0;parked=0"
-		case <-time.After(5 * time.Second):
+		case <-runningFor(5 * time.Second):
 			return "HANG stopping the cache does not return while an interval change is pending"
 		}
 	}
@@ -191,7 +191,7 @@ func evShutdown(base string, backend string, order string) string {
 	}()
 	select {
 	case <-done:
-	case <-time.After(5 * time.Second):
+	case <-runningFor(5 * time.Second):
 		return "HANG shutting the cache down does not return"
 	}
 	time.Sleep(5 * time.Millisecond)
